@@ -55,7 +55,7 @@ type opRec struct {
 
 type result struct {
 	model, obs, judge string
-	inconclusive     string
+	inconclusive      string
 }
 
 type sys struct {
@@ -274,6 +274,54 @@ func runSeq(r *rng.R, maxOps int) result {
 	return render(s, recs, elected, true)
 }
 
+// runReplay: a corpus line `u:<g>:<tags>;e;E;...` (e = the replica is elected, E = Enable called directly).
+func runReplay(line string) result {
+	s := newSys(false, 0)
+	var recs []*opRec
+	var elected int64
+	do := func(sp opSpec) {
+		rec := &opRec{opSpec: sp}
+		recs = append(recs, rec)
+		s.exec(len(recs)-1, rec)
+	}
+	if !s.run.NeedLeaderElection() {
+		do(opSpec{enable: true})
+	}
+	for _, f := range strings.Split(strings.TrimSpace(line), ";") {
+		parts := strings.Split(f, ":")
+		switch {
+		case f == "e":
+			if elected == 0 {
+				elected = s.clock.Add(1)
+				if s.run.NeedLeaderElection() {
+					do(opSpec{enable: true})
+				}
+			}
+		case f == "E":
+			do(opSpec{enable: true, direct: true})
+		case len(parts) == 3 && parts[0] == "u":
+			g, err := strconv.Atoi(parts[1])
+			if err != nil || g < 0 || g >= len(groupNames) {
+				return result{inconclusive: "bad corpus line " + line}
+			}
+			var tags []int
+			if parts[2] != "-" {
+				for _, t := range strings.Split(parts[2], ",") {
+					v, err := strconv.Atoi(t)
+					if err != nil {
+						return result{inconclusive: "bad corpus line " + line}
+					}
+					tags = append(tags, v)
+				}
+			}
+			do(opSpec{g: g, tags: tags})
+		default:
+			return result{inconclusive: "bad corpus line " + line}
+		}
+	}
+	return render(s, recs, elected, true)
+}
+
 // runConc: submissions from several goroutines racing with the election.
 func runConc(r *rng.R) result {
 	s := newSys(true, r.U64())
@@ -348,11 +396,26 @@ func Run(args []string) int {
 	n := fs.Int("n", 100, "number of cases")
 	maxOps := fs.Int("maxops", 10, "max submissions per sequential case")
 	conc := fs.Bool("conc", false, "concurrent histories (judge only)")
+	replay := fs.String("replay", "", "file with one sequential operation list per line (corpus)")
 	_ = fs.Parse(args)
 	r := rng.New(*seed)
 	w := bufio.NewWriter(os.Stdout)
 	defer w.Flush()
 	anomalies := 0
+	var corpus []string
+	if *replay != "" {
+		data, err := os.ReadFile(*replay)
+		if err != nil {
+			fmt.Fprintln(os.Stderr, err)
+			return 2
+		}
+		for _, l := range strings.Split(string(data), "\n") {
+			if l = strings.TrimSpace(l); l != "" && !strings.HasPrefix(l, "#") {
+				corpus = append(corpus, l)
+			}
+		}
+		*n = len(corpus)
+	}
 	for i := 0; i < *n && anomalies < 12; i++ {
 		cr := r.Fork()
 		ch := make(chan result, 1)
@@ -362,7 +425,9 @@ func Run(args []string) int {
 					ch <- result{inconclusive: fmt.Sprintf("harness panic: %v", p)}
 				}
 			}()
-			if *conc {
+			if corpus != nil {
+				ch <- runReplay(corpus[i])
+			} else if *conc {
 				ch <- runConc(cr)
 			} else {
 				ch <- runSeq(cr, *maxOps)
